@@ -16,7 +16,8 @@ def run(ctx):
     binp = ctx.build("ledger")
     states = transitions = replayed = 0
     # (family, blocks, bound on deliveries quick / thorough, Idle calls interleaved)
-    fams = [("ForkA", 6, 9, "FALSE"), ("ForkB", 6, 10, "FALSE"), ("ForkC", 8, 8, "FALSE"), ("ForkD", 5, 7, "TRUE")]
+    fams = [("ForkA", 6, 9, "FALSE"), ("ForkB", 6, 10, "FALSE"), ("ForkC", 8, 8, "FALSE"), ("ForkD", 5, 7, "TRUE"),
+            ("Retarget", 6, 8, "FALSE")]
     if not quick:
         fams += [("ForkA", 9, 9, "TRUE"), ("ForkC", 8, 8, "TRUE")]
     first = None
@@ -62,7 +63,7 @@ def run(ctx):
     ctx.cov.update({"states": states, "transitions": transitions, "traces_validated_against_impl": replayed,
                     "exhaustive": True, "families": sorted(set(f[0] for f in fams)),
                     "rule": "every delivery order (bounded length) of the ForkA / ForkB block trees; every transition replayed on lib/chain with plain and compressed UTXO records; tip + full UTXO dump compared"})
-    ctx.assumptions += ["all blocks have the same (minimum) difficulty: cumulative work = height; longer-but-lighter branches across a retarget are not covered",
+    ctx.assumptions += ["work differs between blocks only in family Retarget (first retarget at height 2016, difficulty x4 against x1); MorePOW's float arithmetic is exercised only there",
                         "header-only (not yet downloaded) blocks are not modelled: every delivered block carries its data"]
 
 
